@@ -592,9 +592,22 @@ func ruleR8_11(w *World, r *Report) {
 		if w.PkgName(fn) != "explain" {
 			continue
 		}
+		wraps := rupWrappers(w, rup)
+		if _, isW := wraps[fn]; isW {
+			continue
+		}
 		for _, ci := range callsIn(fn) {
 			rc, ok := ci.(*ssa.Call)
-			if !ok || !w.staticCalleeIs(rc, rup) || !inLoop(fn, rc.Block()) {
+			if !ok || !inLoop(fn, rc.Block()) {
+				continue
+			}
+			if _, viaW := wraps[rc.Call.StaticCallee()]; !w.staticCalleeIs(rc, rup) && !viaW {
+				continue
+			}
+			if _, viaW := wraps[rc.Call.StaticCallee()]; viaW {
+				// the wrapper parses and tests in one step: every line handed to it is tested
+				n++
+				r.OK("R8.11", w.FuncName(fn)+" tests every line it parsed", w.InstrPos(rc), "lines are parsed and tested in one step by "+w.FuncName(rc.Call.StaticCallee()))
 				continue
 			}
 			n++
